@@ -21,7 +21,13 @@
 -/
 namespace MW.Model.Api
 
-abbrev Var := String
+/-- variables are numbers (the kernel compares them fast); `V "name"` is the base-256 reading of the name,
+    an injective encoding, and string literals coerce to it -/
+abbrev Var := Nat
+
+def V (s : String) : Var := s.toList.foldl (fun n c => n * 256 + c.toNat) 0
+
+scoped instance : Coe String Var := ⟨V⟩
 
 inductive Arg
   | v (x : Var)
@@ -207,6 +213,7 @@ def entailsA (A : List Atom) (a : Atom) : Bool :=
       | .ge y k => y == x && k ≥ 1
       | .eqk y k => y == x && k ≥ 1
       | .lt _ y => y == x
+      | .eqv a b => (a == x && A.contains (.nz b)) || (b == x && A.contains (.nz a))
       | _ => false)
   | .z x => A.contains (.eqk x 0)
   | .ge xs k => k == 0 || A.any (fun b => match b with
@@ -230,15 +237,19 @@ def chain (F : Facts) : Nat → List Atom → List Atom
   | 0, A => A
   | n + 1, A => chain F n (chainStep F A)
 
-/-- atoms derivable from the facts -/
-def closure (F : Facts) : List Atom := chain F F.length []
+/-- the atoms recorded as unconditional facts; `sat` keeps them closed under the implications, so that
+    entailment, `kill` and `meet` never have to chain -/
+def closure (F : Facts) : List Atom := atomsOf F
+
+/-- saturate: add the atoms the implications yield from the recorded atoms (two rounds) -/
+def sat (F : Facts) : Facts :=
+  let A := atomsOf F
+  union F (((chain F 2 A).filter (fun a => !(A.contains a))).map fact)
 
 def entails (F : Facts) (a : Atom) : Bool := entailsA (closure F) a
 
-/-- forget everything about `x`: clauses mentioning `x` are dropped, but the atoms they already yield
-    about other variables are kept -/
-def kill (x : Var) (F : Facts) : Facts :=
-  union (F.filter (fun c => !(c.vars.contains x))) (((closure F).filter (fun a => !(a.vars.contains x))).map fact)
+/-- forget everything about `x` (the atoms already derived about other variables stay: `sat`) -/
+def kill (x : Var) (F : Facts) : Facts := F.filter (fun c => !(c.vars.contains x))
 
 def killAll (xs : List Var) (F : Facts) : Facts := xs.foldl (fun F x => kill x F) F
 
@@ -271,7 +282,7 @@ end
 
 /-- variables that are non-zero on the `A` paths and zero on the `B` paths (`err` after `if err != nil`) -/
 def discr (A B : List Atom) : List Var :=
-  ((A.filterMap (fun a => match a with | .nz e => some e | _ => none)).filter (fun e => entailsA B (.z e))).take 1
+  (((A.flatMap Atom.vars).eraseDups.filter (fun e => entailsA A (.nz e) && entailsA B (.z e)))).take 3
 
 /-- `as` guarded by `e ≠ 0` (pos) or `e = 0` -/
 def condFacts (e : Var) (pos : Bool) (as : List Atom) : Facts :=
@@ -286,12 +297,15 @@ def meet : Option Facts → Option Facts → Option Facts
   | some A, some B =>
     let ca := closure A
     let cb := closure B
-    let common := union (A.filter (fun c => B.contains c)) ((ca.filter (fun a => entailsA cb a)).map fact)
+    -- variables known non-zero on both paths for different reasons (`err = k₁` / `err = k₂`)
+    let bothNz := ((ca ++ cb).flatMap Atom.vars).eraseDups.filter (fun e => entailsA ca (.nz e) && entailsA cb (.nz e))
+    let common := union (union (union (A.filter (fun c => B.contains c)) ((ca.filter (fun a => entailsA cb a)).map fact))
+                        ((cb.filter (fun a => entailsA ca a)).map fact)) (bothNz.map (fun e => fact (.nz e)))
     let onlyA := ca.filter (fun a => !(entailsA cb a))
     let onlyB := cb.filter (fun a => !(entailsA ca a))
     let extra := (discr ca cb).flatMap (fun e => condFacts e true onlyA ++ condFacts e false onlyB) ++
                  (discr cb ca).flatMap (fun e => condFacts e true onlyB ++ condFacts e false onlyA)
-    some (union common extra)
+    some (sat (union common extra))
 
 /-- contradictory facts: the path is unreachable -/
 def inconsistent (F : Facts) : Bool :=
@@ -345,15 +359,15 @@ def check (P : Prog) : Nat → Facts → Stmt → Option (Option Facts × Option
     match req with
     | none => some (some F, none)
     | some a => if entails F a then some (some F, none) else none
-  | _ + 1, F, .call _ outs ens => some (some (union (killAll outs F) ens), none)
+  | _ + 1, F, .call _ outs ens => some (some (sat (union (killAll outs F) ens)), none)
   | _ + 1, F, .set x a =>
     let F' := kill x F
     match a with
-    | .k n => some (some (union F' [fact (.eqk x n)]), none)
-    | .v y => if y = x then some (some F', none) else some (some (union F' [fact (.eqv x y)]), none)
+    | .k n => some (some (sat (union F' [fact (.eqk x n)])), none)
+    | .v y => if y = x then some (some F', none) else some (some (sat (union F' [fact (.eqv x y)])), none)
   | n + 1, F, .ite c t e =>
-    let Ft := union F ((c.pos F).map fact)
-    let Fe := union F ((c.neg F).map fact)
+    let Ft := sat (union F ((c.pos F).map fact))
+    let Fe := sat (union F ((c.neg F).map fact))
     match (if inconsistent Ft then some (none, none) else check P n Ft t),
           (if inconsistent Fe then some (none, none) else check P n Fe e) with
     | some (Tn, Tr), some (En, Er) => some (meet Tn En, meet Tr Er)
@@ -367,7 +381,7 @@ def check (P : Prog) : Nat → Facts → Stmt → Option (Option Facts × Option
       if !(inv.all (entails F)) then none
       else if inv.any (fun a => a.vars.contains i) || i == cnt then none
       else
-        match check P n (union (union Fk (inv.map fact)) [fact (.lt i cnt)]) body with
+        match check P n (sat (union (union Fk (inv.map fact)) [fact (.lt i cnt)])) body with
         | none => none
         | some (Bn, Br) => if invKept inv Bn then some (some (union Fk (inv.map fact)), Br) else none
   | _ + 1, _, .iter _ _ _ _ => none
